@@ -338,3 +338,121 @@ Lemma C17_binomial_nonvacuous_lemma :
   c17_inrange t (c17_rise (18 - Z.min 9 (18 - 9)) (Z.to_nat (Z.min 9 (18 - 9)))) = false.
 Proof. cbv zeta. repeat split; try lia; vm_compute; reflexivity. Qed.
 
+
+(* ------------------------------------------------------------------ power guarded on the FINAL value only *)
+(* partial products never leave the range when the final product is in range: |m^i| <= |m^p| / 2 for |m| >= 2, i < p *)
+Lemma c17_pow_half (m i p : Z) : 2 <= Z.abs m -> 0 <= i < p -> 2 * Z.abs (m ^ i) <= Z.abs (m ^ p).
+Proof.
+  intros Hm Hi. replace p with (i + (p - i)) by lia. rewrite Z.pow_add_r, Z.abs_mul, !Z.abs_pow by lia.
+  assert (P : 0 <= Z.abs m ^ i) by (apply Z.pow_nonneg; lia).
+  assert (Q : 2 <= Z.abs m ^ (p - i)).
+  { apply Z.le_trans with (Z.abs m ^ 1); [rewrite Z.pow_1_r; lia | apply Z.pow_le_mono_r; lia]. }
+  nia.
+Qed.
+
+Lemma c17_signed_range (t : c17_ity) : c17_signed t = true -> c17_imin t = - (c17_imax t + 1).
+Proof. unfold c17_imin, c17_imax. intros ->. lia. Qed.
+
+Lemma c17_unsigned_range (t : c17_ity) : c17_signed t = false -> c17_imin t = 0.
+Proof. unfold c17_imin. now intros ->. Qed.
+
+Lemma c17_inrange_iff (t : c17_ity) (z : Z) : c17_inrange t z = true <-> c17_imin t <= z <= c17_imax t.
+Proof.
+  unfold c17_inrange. split.
+  - intros H. apply andb_prop in H. destruct H as [A B]. apply Z.leb_le in A. apply Z.leb_le in B. lia.
+  - intros [A B]. apply andb_true_intro; split; now apply Z.leb_le.
+Qed.
+
+Lemma c17_pow_partial_inrange (t : c17_ity) (m p i : Z) :
+  c17_inrange t 1 = true -> c17_inrange t m = true -> c17_inrange t (m ^ p) = true ->
+  1 <= i <= p -> c17_inrange t (m ^ i) = true.
+Proof.
+  intros R1 Rm Rp Hi.
+  destruct (Z.eq_dec i p) as [->|Ne]; [exact Rp|].
+  destruct (Z.eq_dec m 0) as [->|Nz].
+  { rewrite Z.pow_0_l by lia. now rewrite Z.pow_0_l in Rp by lia. }
+  destruct (Z.eq_dec m 1) as [->|N1]; [now rewrite Z.pow_1_l by lia|].
+  destruct (Z.eq_dec m (-1)) as [->|Nm1].
+  { destruct (Z.Even_or_Odd i) as [[k ->]|[k ->]].
+    - rewrite Z.pow_mul_r by lia. simpl ((-1) ^ 2). now rewrite Z.pow_1_l by lia.
+    - rewrite Z.pow_add_r, Z.pow_mul_r by lia. simpl ((-1) ^ 2). rewrite Z.pow_1_l by lia. exact Rm. }
+  assert (Hm : 2 <= Z.abs m) by lia.
+  pose proof (c17_pow_half m i p Hm ltac:(lia)) as Half.
+  apply c17_inrange_iff in R1. apply c17_inrange_iff in Rm. apply c17_inrange_iff in Rp. apply c17_inrange_iff.
+  destruct (c17_signed t) eqn:S.
+  - rewrite (c17_signed_range t S) in *. lia.
+  - rewrite (c17_unsigned_range t S) in *.
+    assert (0 <= m ^ i) by (apply Z.pow_nonneg; lia). assert (0 <= m ^ p) by (apply Z.pow_nonneg; lia). lia.
+Qed.
+
+(* power<Base,int>(m, p), p >= 0, integral Base: the exact value whenever m^p itself is representable
+   (m is a value of the type; 1 = Base(1) is) -- no hypothesis on the partial products *)
+Lemma C17_power_final_lemma (t : c17_ity) (m p : Z) :
+  0 <= p -> c17_inrange t 1 = true -> c17_inrange t m = true -> c17_inrange t (m ^ p) = true ->
+  c17_ipower t m p = C17_Val (m ^ p).
+Proof.
+  intros Hp R1 Rm Rp. apply C17_power_lemma; auto.
+  intros i Hi. now apply (c17_pow_partial_inrange t m p i).
+Qed.
+
+(* and the guard is necessary: when m^p is not representable the result is not m^p *)
+Lemma C17_power_final_converse_lemma (t : c17_ity) (m p : Z) :
+  c17_signed t = true -> c17_inrange t 1 = true -> c17_inrange t (m ^ p) = false -> c17_ipower t m p <> C17_Val (m ^ p).
+Proof.
+  intros S R1 R H.
+  (* every value the signed model returns went through c17_fit, hence is in range *)
+  assert (Fit : forall z v, c17_fit t z = C17_Val v -> c17_inrange t v = true).
+  { intros z v. unfold c17_fit. rewrite S. destruct (c17_inrange t z) eqn:E; intros X; inversion X; subst; exact E. }
+  assert (Loop : forall n acc v, c17_inrange t acc = true -> c17_ipower_loop t m n acc = C17_Val v -> c17_inrange t v = true).
+  { induction n as [|n IH]; intros acc v Ra; simpl.
+    - intros X; inversion X; subst; exact Ra.
+    - destruct (c17_fit t (acc * m)) as [z| |] eqn:F; simpl; try discriminate. intros X. apply (IH z v); auto. now apply (Fit (acc * m)). }
+  unfold c17_ipower in H.
+  destruct (p <? 0) eqn:Ep.
+  - destruct (c17_fit c17_int32 (- p)) as [a| |]; simpl in H; try discriminate.
+    destruct (c17_ipower_loop t m (Z.to_nat a) 1) as [r| |] eqn:L; simpl in H; try discriminate.
+    unfold c17_idiv in H. destruct (r =? 0); try discriminate. apply Fit in H. congruence.
+  - simpl in H. destruct (c17_ipower_loop t m (Z.to_nat p) 1) as [r| |] eqn:L; simpl in H; try discriminate.
+    inversion H; subst r.
+    apply Loop in L; auto. congruence.
+Qed.
+
+(* ------------------------------------------------------------------ width guards for every integer type *)
+Import ListNotations.
+Definition c17_all_types : list c17_ity :=
+  [C17_Ity true 8; C17_Ity false 8; C17_Ity true 16; C17_Ity false 16; C17_Ity true 32; C17_Ity false 32; C17_Ity true 64; C17_Ity false 64].
+(* largest n with n! representable / largest n with every C(n,k) representable, per type (same order) *)
+Definition c17_fact_limits : list Z := [5; 5; 7; 8; 12; 12; 20; 20].
+Definition c17_binom_limits : list Z := [9; 10; 17; 18; 33; 34; 66; 67].
+
+Definition c17_range (n : Z) : list Z := map Z.of_nat (seq 0 (Z.to_nat (n + 1))).
+Definition c17_is_val (r : c17_ires) (v : Z) : bool := match r with C17_Val z => z =? v | _ => false end.
+
+(* factorial: exact for every n <= limit, n! not representable at limit + 1 (so the result there is not n!) *)
+Lemma C17_factorial_widths_lemma :
+  forallb (fun tl => let t := fst tl in let l := snd tl in
+     forallb (fun n => c17_is_val (c17_factorial t n) (c17_spec_factorial n)) (c17_range l)
+     && negb (c17_inrange t (c17_spec_factorial (l + 1)))
+     && negb (c17_is_val (c17_factorial t (l + 1)) (c17_spec_factorial (l + 1))))
+    (combine c17_all_types c17_fact_limits) = true.
+Proof. vm_compute. reflexivity. Qed.
+
+(* binomial (fixed code): exact for every 0 <= k <= n <= limit (and 0 for k = -1, n+1), and C(limit+1, (limit+1)/2) is not representable *)
+Lemma C17_binomial_widths_lemma :
+  forallb (fun tl => let t := fst tl in let l := snd tl in
+     forallb (fun n => forallb (fun k => c17_is_val (c17_binomial_fix t n (k - 1)) (c17_spec_binomial_fast n (k - 1))
+                                         || negb (c17_inrange t (k - 1)))
+                               (c17_range (n + 2))) (c17_range l)
+     && negb (c17_inrange t (c17_spec_binomial_fast (l + 1) ((l + 1) / 2))))
+    (combine c17_all_types c17_binom_limits) = true.
+Proof. vm_compute. reflexivity. Qed.
+
+(* sign: -1 or 1; for a value of an unsigned type always 1 *)
+Lemma C17_sign_types_lemma (t : c17_ity) (v : Z) :
+  (c17_isign v = -1 \/ c17_isign v = 1) /\ (c17_signed t = false -> c17_inrange t v = true -> c17_isign v = 1).
+Proof.
+  unfold c17_isign. split.
+  - destruct (v <? 0); auto.
+  - intros S R. apply c17_inrange_iff in R. rewrite (c17_unsigned_range t S) in R.
+    destruct (Z.ltb_spec v 0); [lia | reflexivity].
+Qed.
